@@ -288,14 +288,15 @@ func getAvailableFieldsForValue(v cue.Value, blockedRootFields []string) (fields
 			continue
 		}
 
+		// the optional / required mark comes after the closing quotation mark of a quoted label
+		fldName = strings.TrimSuffix(fldName, "?")
+		fldName = strings.TrimSuffix(fldName, "!")
+
 		// Strip leading and trailing quotation marks from names:
 		if strings.HasPrefix(fldName, `"`) && strings.HasSuffix(fldName, `"`) {
 			fldName = strings.TrimPrefix(fldName, `"`)
 			fldName = strings.TrimSuffix(fldName, `"`)
 		}
-
-		fldName = strings.TrimSuffix(fldName, "?")
-		fldName = strings.TrimSuffix(fldName, "!")
 
 		// the blocked fields are listed by name: compare the name, not the selector text with its `?` / `!` mark
 		if checkIfValueInList(fldName, blockedRootFields) {
